@@ -291,7 +291,13 @@ def setMcGroupStatusReq (c : Creator) (setter : String) (a : Arg) : Outcome (Set
 
 def setMcGroupSetupReq (cph : Cipher) (c : Creator) (setter : String) (a : Arg) : Outcome (SetRes × Creator) :=
   match setter with
-  | "mc_group_id_header" => setRaw c 1 a
+  | "mc_group_id_header" =>
+    match a with
+    | .n v => do
+      let d ← modByte "data[1] &= 0b1111_1100" c.data 1 (· &&& 0b11111100)
+      let d ← modByte "data[1] |= v & 0b11" d 1 (· ||| (v &&& 0b11))
+      okD c d
+    | _ => badCall
   | "mc_addr" => setBytes c 2 6 a
   | "mc_key" =>
     match a with
